@@ -10,7 +10,7 @@
   parties outside the tier.  "The distribution of `h` seats is adequate" = the evaluator answers for `h` seats
   and gives every tier key at least its floor (`Adequate`).
 -/
-import VotelibProofs.Lemmas.OverhangCont
+import VotelibProofs.Lemmas.OverhangLR
 import Mathlib.Algebra.Order.Archimedean.Basic
 namespace VL.C15
 open VL VL.OH
@@ -301,22 +301,6 @@ theorem level_terminates (div : Nat → Rat) (hd : (∀ k, 0 < div k) ∧ Strict
 
 /-! ### the final totals are the proportional distribution of the enlarged house -/
 
-theorem haEval_ok (div : Nat → Rat) (votes : Votes) (n : Nat) (prev : Seats) (r : Dist)
-    (h : haEval div votes n prev [] = .ok r) :
-    r = normDist (haResult (cfgP div votes n prev)) ∧ (haInit (cfgP div votes n prev)).pool ≠ [] := by
-  unfold haEval highestAverages at h
-  split at h
-  · simp [Except.map] at h
-  · rename_i hpool
-    simp only [Except.map, Except.ok.injEq] at h
-    exact ⟨h.symm, hpool⟩
-
-theorem distHas_lowestAllowed (prop : Dist) (prev : Seats) (k : Key) :
-    distHas (lowestAllowed prop prev) k = distHas prop k := by
-  unfold distHas lowestAllowed
-  rw [List.any_map]
-  rfl
-
 /-- **Final totals = proportional distribution of the enlarged house.**  Highest averages (strictly increasing
     divisors, positive votes) as both the levelling evaluator and the distributing evaluator; all direct seats belong
     to parties of the proportional tier; the proportional distribution `full` of the enlarged house `n + adj` reports
@@ -432,6 +416,77 @@ theorem level_final_is_proportional (div : Nat → Rat) (hd : (∀ k, 0 < div k)
       rw [htp] at he
       simp at he
 
+/-- **The proportional tier consists of parties with votes.**  If at least one party has a positive number of votes,
+    every party that appears (individually) in a highest-averages result has positive votes — so the tier hypothesis
+    of `level_terminates` only excludes `Tie` keys. -/
+theorem ha_tier_has_votes (div : Nat → Rat) (hd : (∀ k, 0 < div k) ∧ StrictMono div) (votes : Votes)
+    (hv : ∀ p ∈ votes, 0 ≤ p.2) (hn : (keys votes).Nodup) (hpos : ∃ p ∈ votes, 0 < p.2) (n : Nat) (prop : Dist)
+    (hp : haEval div votes n [] [] = .ok prop) (c : Cand) (g : Nat) (hc : (Key.cand c, g) ∈ prop) :
+    0 < getD votes c 0 := by
+  obtain ⟨hpe, hpool⟩ := haEval_ok div votes n [] prop hp
+  set cfg := cfgP div votes n [] with hcfg
+  have hok : CfgOK cfg := C01.cfgOK_of_divisor cfg hd hv hn
+  have hnpos : 0 < n := by
+    obtain ⟨p, hpp⟩ := List.exists_mem_of_ne_nil _ hpool
+    obtain ⟨q, _, _, hlt, _⟩ := (haInit_pool_mem _ p).mp hpp
+    have : cfg.capOf q.1 = n := rfl
+    omega
+  have hseat : 0 < haSeats cfg c := by
+    rw [hpe] at hc
+    obtain ⟨e, he, hek⟩ := List.mem_map.mp hc
+    simp only [Prod.mk.injEq] at hek
+    have h1 : e.1 = Key.cand c := (normKey_cand_iff _ _).mp hek.1
+    have : (Key.cand c, e.2) ∈ haResult cfg := by rw [← h1]; exact he
+    exact ((C01.haResult_cand cfg hok c _).mp this).1
+  by_contra hnot
+  have hv0 : cfg.vote c = 0 := le_antisymm (not_lt.mp hnot) (vote_nonneg hok c)
+  obtain ⟨P, hPm, hPpos⟩ := hpos
+  have hPk : P.1 ∈ keys votes := List.mem_map.mpr ⟨P, hPm, rfl⟩
+  have hPv : cfg.vote P.1 = P.2 := vote_of_mem hn hPm
+  have hne : P.1 ≠ c := by
+    intro he
+    rw [he, hv0] at hPv
+    rw [← hPv] at hPpos
+    exact lt_irrefl _ hPpos
+  by_cases hroom : haSeats cfg P.1 < n
+  · have hopt := C01.ha_optimal cfg hok P.1 ⟨hPk, hnpos⟩ (by
+      show cfg.prevOf P.1 + haSeats cfg P.1 < cfg.capOf P.1
+      have h1 : cfg.prevOf P.1 = 0 := rfl
+      have h2 : cfg.capOf P.1 = n := rfl
+      omega) c 0 (Nat.le_of_eq rfl) (by
+      have h1 : cfg.prevOf c = 0 := rfl
+      omega)
+    have hq0 : cfg.quot c 0 = 0 := by unfold HACfg.quot; rw [hv0]; simp
+    have hqP : 0 < cfg.quot P.1 (cfg.prevOf P.1 + haSeats cfg P.1) := by
+      unfold HACfg.quot
+      rw [hPv]
+      exact div_pos hPpos (hd.1 _)
+    rw [hq0] at hopt
+    linarith
+  · have hfill := ha_fills cfg hok rfl (by simp [sumSeats, hcfg, cfgP]) hpool
+    rw [sumDist_haResult] at hfill
+    have hck : c ∈ keys votes := C01.ha_only_voted cfg hok c hseat
+    have h2 := two_le_sum (haCands cfg) (haCands_nodup cfg) (haSeats cfg) P.1 c
+      (mem_haCands_of_key hPk) (mem_haCands_of_key hck) hne
+    have hsp : sumSeats cfg.prev = 0 := rfl
+    have hnn : cfg.n = n := rfl
+    omega
+
+/-- **Levelling terminates**, in terms of the input only: some party has positive votes and the baseline
+    distribution reports no tie. -/
+theorem level_terminates_of_no_tie (div : Nat → Rat) (hd : (∀ k, 0 < div k) ∧ StrictMono div)
+    (hunb : ∀ B : Rat, ∃ k, B < div k) (votes : Votes) (hv : ∀ p ∈ votes, 0 ≤ p.2) (hn : (keys votes).Nodup)
+    (hpos : ∃ p ∈ votes, 0 < p.2) (n : Nat) (prev : Seats) (prop : Dist)
+    (hp : haEval div votes n [] [] = .ok prop)
+    (hnotie : ∀ p ∈ prop, ∃ c, p.1 = .cand c)
+    (hdrop : nonpropDrop (lowestAllowed prop prev) prev ≤ n) :
+    ∃ F, ∀ fuel, F ≤ fuel → ∃ adj, levelOverhang (haEval div) fuel votes n prev [] = .ok adj := by
+  apply level_terminates div hd hunb votes hv hn n prev prop hp _ hdrop
+  intro p hpm
+  obtain ⟨c, hc⟩ := hnotie p hpm
+  refine ⟨c, hc, ha_tier_has_votes div hd votes hv hn hpos n prop hp c p.2 ?_⟩
+  rw [← hc]; exact hpm
+
 /-! ### the literal "smallest enlargement" reading, and where the code departs from it -/
 
 /-- **Smallest enlargement, literally.**  For an evaluator that fills the house and returns distinct keys: whenever the
@@ -494,6 +549,47 @@ theorem level_zero_outside_tier_witness :
   revert this
   decide +kernel
 
+/-! ### Hare largest remainder as the evaluator -/
+
+/-- the largest-remainder model fills the house (non-negative votes, at least one party, distinct parties) -/
+theorem lrHareEval_fills (votes : Votes) (hne : votes ≠ []) (hv : ∀ p ∈ votes, 0 ≤ p.2) (hn : (keys votes).Nodup) :
+    Fills lrHareEval votes :=
+  fun n prev r hr _ => lrHare_fills votes hne hv hn n prev r hr
+
+/-- **The house grows by exactly the reported adjustment**, `LargestRemainder('hare')` as the distributing
+    evaluator: whenever it answers (it refuses with `VotingSystemError` when previous gains exceed a party's whole
+    quotas — recorded finding), direct seats plus awarded seats are `n + adjustment`. -/
+theorem house_grows_by_adj_lr (votes : Votes) (hne : votes ≠ []) (hv : ∀ p ∈ votes, 0 ≤ p.2) (hn : (keys votes).Nodup)
+    (calcr : Calc) (n : Nat) (prev : Seats) (adj : Nat) (res : Dist) (hsum : sumSeats prev ≤ n)
+    (hc : calcr votes n prev [] = .ok adj)
+    (hr : adjustedSeatCount calcr lrHareEval votes n prev [] = .ok res) :
+    sumSeats prev + sumDist res = n + adj :=
+  house_grows_by_adj_of_fills calcr lrHareEval votes n prev adj res (lrHareEval_fills votes hne hv hn) hsum hc hr
+
+/-- `level_least_enlargement` instantiated: for highest averages (built-in divisors) and for Hare largest remainder the
+    hypotheses "fills the house" and "distinct keys" hold, so the literal least-enlargement statement applies. -/
+theorem level_least_enlargement_ha (div : Nat → Rat) (hd : (∀ k, 0 < div k) ∧ StrictMono div) (fuel : Nat)
+    (votes : Votes) (hv : ∀ p ∈ votes, 0 ≤ p.2) (hn : (keys votes).Nodup) (n : Nat) (prev : Seats) (adj : Nat)
+    (h : levelOverhang (haEval div) fuel votes n prev [] = .ok adj) :
+    ∃ prop, haEval div votes n [] [] = .ok prop ∧
+      (0 < adj ∨ nonpropDrop (lowestAllowed prop prev) prev = 0 →
+        Adequate (haEval div) votes [] (lowestAllowed prop prev) (n - nonpropDrop (lowestAllowed prop prev) prev + adj) ∧
+        ∀ e, e < adj → ¬ Adequate (haEval div) votes [] (lowestAllowed prop prev)
+          (n - nonpropDrop (lowestAllowed prop prev) prev + e)) :=
+  level_least_enlargement (haEval div) fuel votes n prev adj (haEval_fills div hd votes hv hn)
+    (fun r hr => haEval_nodup div votes n [] [] r hr) h
+
+theorem level_least_enlargement_lr (fuel : Nat) (votes : Votes) (hne : votes ≠ []) (hv : ∀ p ∈ votes, 0 ≤ p.2)
+    (hn : (keys votes).Nodup) (n : Nat) (prev : Seats) (adj : Nat)
+    (h : levelOverhang lrHareEval fuel votes n prev [] = .ok adj) :
+    ∃ prop, lrHareEval votes n [] [] = .ok prop ∧
+      (0 < adj ∨ nonpropDrop (lowestAllowed prop prev) prev = 0 →
+        Adequate lrHareEval votes [] (lowestAllowed prop prev) (n - nonpropDrop (lowestAllowed prop prev) prev + adj) ∧
+        ∀ e, e < adj → ¬ Adequate lrHareEval votes [] (lowestAllowed prop prev)
+          (n - nonpropDrop (lowestAllowed prop prev) prev + e)) :=
+  level_least_enlargement lrHareEval fuel votes n prev adj (lrHareEval_fills votes hne hv hn)
+    (fun r hr => lrHare_nodup votes hn n [] [] r hr) h
+
 /-! ### LevelOverhangByConstituency -/
 
 /-- **Levelling by constituency is least.**  With the floors summed over the constituencies
@@ -551,6 +647,21 @@ theorem level_cty_is_least (cev : CtyEval) (ov : PropEval) (fuel : Nat) (cv : CV
               rw [(belowMin_false_iff _ _).mpr hm] at hrb'
               exact Bool.false_ne_true hrb'
 
+open Gen.Divisor in
+/-- **Where the by-constituency floors fall short** (recorded finding
+    `C15-by-constituency-direct-seats-without-local-share`): D'Hondt, constituency 0 (3 seats, votes 60:30) gives
+    party 1 one proportional seat, constituency 1 (2 seats, votes 90:10) gives it none, but party 1 holds the direct
+    seat of constituency 1.  `lowest_allowed` only looks at the parties of each constituency's proportional result, so
+    party 1's floor is 1 instead of 1 + 1, and the adjustment is 0. -/
+theorem level_cty_direct_seat_ignored_witness :
+    byConstituencyFixed (haEval d_hondt) [(0, 3), (1, 2)] [(0, [(0, 60), (1, 30)]), (1, [(0, 90), (1, 10)])] 5
+      = .ok [(0, [(.cand 0, 2), (.cand 1, 1)]), (1, [(.cand 0, 2)])] ∧
+    lowestAllowedCty [(0, [(.cand 0, 2), (.cand 1, 1)]), (1, [(.cand 0, 2)])] [(1, [(1, 1)])]
+      = [(.cand 0, 4), (.cand 1, 1)] ∧
+    levelOverhangCty (byConstituencyFixed (haEval d_hondt) [(0, 3), (1, 2)]) (haEval d_hondt) 400
+      [(0, [(0, 60), (1, 30)]), (1, [(0, 90), (1, 10)])] 5 [(1, [(1, 1)])] = .ok 0 := by
+  refine ⟨by decide +kernel, by decide +kernel, by decide +kernel⟩
+
 /-! ### non-vacuity: concrete inputs meeting the hypotheses of the conditional theorems -/
 
 section Examples
@@ -586,6 +697,9 @@ example : multistage [(mockStage exPrev, exVotes),
     = .ok [(.cand 0, 5), (.cand 2, 2), (.cand 1, 3)] := by decide +kernel
 /-- a party outside the tier (party 3, no votes) with a direct seat, and tier overhang: the loop runs from 5 − 1 -/
 example : levelOverhang (haEval sainte_lague) 400 exVotes 5 [(2, 2), (3, 1)] [] = .ok 6 := by decide +kernel
+/-- the repository's unit test: LevelOverhang(LargestRemainder('hare')), votes 500:300:100, 9 seats, direct 1:0:2 -> 4 -/
+example : levelOverhang lrHareEval 400 [(0, 500), (1, 300), (2, 100)] 9 [(0, 1), (1, 0), (2, 2)] [] = .ok 4 := by
+  decide +kernel
 /-- by constituency: two constituencies with 3 and 2 seats, D'Hondt, party 1 holds both seats of constituency 1 -/
 example : levelOverhangCty (byConstituencyFixed (haEval d_hondt) [(0, 3), (1, 2)]) (haEval d_hondt) 400
     [(0, [(0, 60), (1, 30)]), (1, [(0, 50), (1, 40)])] 5 [(1, [(1, 2)])] = .ok 2 := by decide +kernel
